@@ -325,19 +325,21 @@ class RequestWideSearchContext(object):
     def copy_arr_if_needed(self, arr):
         """Copy or return arr, depending on the search context.
 
-        In cases with group_policy=none where multiple groups request
-        amounts from the same resource class, we end up using the same
-        AllocationRequestResource more than once when consolidating. So we
-        need to make a copy so we don't overwrite the one used for a
-        different result. But as an optimization, since this copy is not
-        cheap, we don't do it unless it's necessary.
+        In cases where multiple groups request amounts from the same resource
+        class, we end up using the same AllocationRequestResource more than
+        once when consolidating. So we need to make a copy so we don't
+        overwrite the one used for a different result. But as an optimization,
+        since this copy is not cheap, we don't do it unless it's necessary.
+
+        Note that this does not depend on group_policy: when it is not given
+        (a single suffixed group next to the suffixless one) or is 'isolate',
+        a suffixed group and the suffixless group can still be satisfied by
+        the same provider.
 
         :param arr: An AllocationRequestResource to be returned or copied and
                 returned.
         :return: arr or a copy thereof.
         """
-        if self.group_policy != 'none':
-            return arr
         if arr.resource_class in self.multi_group_rcs:
             return copy.copy(arr)
         return arr
